@@ -21,6 +21,14 @@ pub struct Query {
     pub kinds: Vec<u16>,
     /// (name, indexes into the tag value pool)
     pub tags: Vec<(String, Vec<u8>)>,
+    /// additional authors / kinds / tag constraints copied from submitted events (so that several
+    /// events qualify per index range)
+    #[serde(default)]
+    pub authors_of: Vec<u16>,
+    #[serde(default)]
+    pub kinds_of: Vec<u16>,
+    #[serde(default)]
+    pub tags_of: Vec<u16>,
     pub since: Option<u64>,
     pub until: Option<u64>,
     pub limit: Option<u32>,
@@ -81,8 +89,13 @@ pub fn query_strategy() -> BoxedStrategy<Query> {
         prop::bool::weighted(0.7),
         prop::sample::select(vec![0u32, 2, 1000]),
         prop::sample::select(vec![0u64, 10, 1_000_000_000_000, u64::MAX]),
+        (
+            prop_oneof![2 => Just(Vec::new()), 1 => prop::collection::vec(any::<u16>(), 1..3)],
+            prop_oneof![2 => Just(Vec::new()), 1 => prop::collection::vec(any::<u16>(), 1..4)],
+            prop_oneof![3 => Just(Vec::new()), 1 => prop::collection::vec(any::<u16>(), 1..3)],
+        ),
     )
-        .prop_map(|((ids, authors, kinds, tags), since, until, limit, screen, allow_scraping, allow_if_limited_to, allow_if_max_seconds)| {
+        .prop_map(|((ids, authors, kinds, tags), since, until, limit, screen, allow_scraping, allow_if_limited_to, allow_if_max_seconds, (authors_of, kinds_of, tags_of))| {
             // distinct tag names
             let mut seen = Vec::new();
             let tags = tags
@@ -108,6 +121,9 @@ pub fn query_strategy() -> BoxedStrategy<Query> {
                 allow_scraping,
                 allow_if_limited_to,
                 allow_if_max_seconds,
+                authors_of,
+                kinds_of,
+                tags_of,
             }
         })
         .boxed()
@@ -166,7 +182,8 @@ impl Prop for C05 {
             extra: 0,
         };
         let cfg = EvCfg {
-            kind_weights: [5, 2, 2, 1, 2],
+            authors: 3,
+            kind_weights: [8, 2, 2, 1, 1],
             ..EvCfg::default()
         };
         (history(w, cfg, tier.pick(30, 100)), prop::collection::vec(query_strategy(), 1..8))
@@ -233,9 +250,39 @@ impl Prop for C05 {
                         IdSel::Absent(i) => Some(w.absent_ids[(*i as usize) % w.absent_ids.len()].clone()),
                     })
                     .collect(),
-                authors: q.authors.iter().map(|a| author(*a)).collect(),
-                kinds: q.kinds.clone(),
-                tags: q.tags.iter().map(|(n, vs)| (n.clone(), vs.iter().map(|i| pool[(*i as usize) % pool.len()].clone()).collect())).collect(),
+                authors: {
+                    let mut a: Vec<String> = q.authors.iter().map(|a| author(*a)).collect();
+                    if n > 0 {
+                        a.extend(q.authors_of.iter().map(|i| w.events[idx16(*i, n)].pubkey.clone()));
+                    }
+                    a
+                },
+                kinds: {
+                    let mut k = q.kinds.clone();
+                    if n > 0 {
+                        k.extend(q.kinds_of.iter().map(|i| w.events[idx16(*i, n)].kind));
+                    }
+                    k
+                },
+                tags: {
+                    let mut t: Vec<(String, Vec<String>)> = q.tags.iter().map(|(n, vs)| (n.clone(), vs.iter().map(|i| pool[(*i as usize) % pool.len()].clone()).collect())).collect();
+                    if n > 0 {
+                        for i in &q.tags_of {
+                            let e = &w.events[idx16(*i, n)];
+                            if let Some(tag) = e.tags.iter().find(|t| t.len() >= 2 && t[0].len() == 1 && t[0].as_bytes()[0].is_ascii_alphabetic()) {
+                                match t.iter_mut().find(|(nm, _)| *nm == tag[0]) {
+                                    Some((_, vs)) => {
+                                        if !vs.contains(&tag[1]) {
+                                            vs.push(tag[1].clone())
+                                        }
+                                    }
+                                    None => t.push((tag[0].clone(), vec![tag[1].clone()])),
+                                }
+                            }
+                        }
+                    }
+                    t
+                },
                 since: q.since,
                 until: q.until,
                 limit: q.limit,
